@@ -4,6 +4,8 @@ import NimaVerif.Lemmas.AttrTree
 /-! How the identity-based mutations of the document (`updBind`, `updSet`) act on what Nix reads
 (`denote`): an update of the object at a path is a `graft` at that path. -/
 namespace Nima
+-- name tokens are compared by spelling in this file (see `NameCmp` in Model/Edit.lean)
+attribute [local instance] NameCmp.spelled
 open Node
 
 /-! ### list forms -/
@@ -118,7 +120,8 @@ theorem isNamed_iff (k : Text) (n : Node) :
     isNamed k n = true ↔ ∃ i ne val bf af, n = .bind i k ne val bf af := by
   cases n <;> simp [isNamed, isBind, bindName?]
 
-theorem findBinding_eq (vs : List Node) (k : Text) : findBinding vs k = vs.find? (isNamed k) := rfl
+theorem findBinding_eq (vs : List Node) (k : Text) : findBinding vs k = vs.find? (isNamed k) := by
+  rw [findBinding_spelled]; rfl
 
 /-- `findBinding` spelled out: the first binding named `k`, and where it sits. -/
 theorem findBinding_some (vs : List Node) (k : Text) (b : Node) (h : findBinding vs k = some b) :
